@@ -140,9 +140,11 @@ Proof.
     destruct (sys_stat fs _) as [q' n|q'|]; try discriminate.
     destruct (match n with NDir => f_walk c | _ => false end); [discriminate|].
     destruct (rev _) as [|fname rest]; [discriminate|].
-    destruct (c_name c) as [nm|]; [discriminate|].
-    destruct (f_name_decode c); discriminate.
+    destruct (c_name c) as [nm|].
+    + destruct (negb (name_ok nm)); discriminate.
+    + destruct (f_name_decode c); [discriminate|]. destruct (negb (name_ok fname)); discriminate.
   - destruct (c_name c) as [nm|]; [|discriminate].
+    destruct (negb (name_ok nm)); [discriminate|].
     destruct (c_output c) as [[|t]|]; discriminate.
 Qed.
 
@@ -355,11 +357,22 @@ Proof.
 Qed.
 
 (* ---------- plain names ---------- *)
-Definition plain (s : list N) : bool := forallb (fun b => negb (b =? 47)) s.
+(** [name_ok] (one normal path component) in particular excludes the separator *)
+Lemma name_ok_no_sep : forall s, name_ok s = true -> no_sep s = true.
+Proof. intros s H. unfold name_ok in H. apply andb_true_iff in H. exact (proj2 H). Qed.
 
-Lemma split_noslash : forall s cur, plain s = true -> split_slash s cur = [rev cur ++ s].
+Lemma name_ok_facts : forall s, name_ok s = true ->
+  s <> [] /\ is_dot s = false /\ is_dotdot s = false /\ no_sep s = true.
 Proof.
-  induction s as [|b r IH]; intros cur H; cbn in *.
+  intros s H. unfold name_ok in H.
+  apply andb_true_iff in H. destruct H as [H H4]. apply andb_true_iff in H. destruct H as [H H3].
+  apply andb_true_iff in H. destruct H as [H1 H2]. apply negb_true_iff in H1, H2, H3.
+  repeat split; try assumption. intros ->. discriminate.
+Qed.
+
+Lemma split_noslash : forall s cur, no_sep s = true -> split_slash s cur = [rev cur ++ s].
+Proof.
+  unfold no_sep. induction s as [|b r IH]; intros cur H; cbn in *.
   - rewrite app_nil_r; reflexivity.
   - apply andb_true_iff in H. destruct H as [Hb Hr]. apply negb_true_iff in Hb. rewrite Hb.
     rewrite IH by assumption. cbn [rev]. rewrite <- app_assoc. reflexivity.
@@ -379,12 +392,12 @@ Proof.
     rewrite app_length in E. cbn in E. lia.
 Qed.
 
-Lemma parse_plain : forall nm, plain nm = true ->
+Lemma parse_plain : forall nm, no_sep nm = true ->
   parse_path (name_torrent nm) = {| p_abs := false; p_comps := [name_torrent nm] |}.
 Proof.
   intros nm H. unfold parse_path.
-  assert (Hp : plain (name_torrent nm) = true).
-  { unfold plain, name_torrent. rewrite forallb_app. fold (plain nm). rewrite H. reflexivity. }
+  assert (Hp : no_sep (name_torrent nm) = true).
+  { unfold no_sep, name_torrent. rewrite forallb_app. fold (no_sep nm). rewrite H. reflexivity. }
   rewrite split_noslash by assumption. cbn [rev app filter].
   destruct (name_torrent_normal nm) as (H1 & H2 & _). rewrite H1, H2. cbn [negb andb].
   f_equal. unfold name_torrent in *. destruct nm as [|b r]; [reflexivity|].
@@ -404,18 +417,93 @@ Proof.
     destruct (sys_stat fs _) as [q' n|q'|]; try discriminate.
     destruct (match n with NDir => f_walk c | _ => false end); [discriminate|].
     destruct (rev _) as [|fname rest]; [discriminate|].
-    destruct (c_name c) as [nm'|]; [inversion H; reflexivity|].
-    destruct (f_name_decode c); [discriminate|inversion H; reflexivity].
-  - destruct (c_name c) as [nm'|]; [inversion H; reflexivity|discriminate].
+    destruct (c_name c) as [nm'|].
+    + destruct (negb (name_ok nm')); [discriminate|inversion H; reflexivity].
+    + destruct (f_name_decode c); [discriminate|].
+      destruct (negb (name_ok fname)); [discriminate|inversion H; reflexivity].
+  - destruct (c_name c) as [nm'|]; [|discriminate].
+    destruct (negb (name_ok nm')); [discriminate|inversion H; reflexivity].
+Qed.
+
+(** the name check: whatever from_create lets through - given with --name or taken from the
+    input's file name - is exactly one normal path component *)
+Theorem accepted_name_ok : forall c fs nm o, from_create c fs = inr (nm, o) -> name_ok nm = true.
+Proof.
+  intros c fs nm o H. unfold from_create in H.
+  destruct (c_input c) as [itext|].
+  - destruct (f_glob c); [discriminate|].
+    destruct (sys_lstat fs _) as [q ln|q|]; try discriminate.
+    destruct (match ln with NLink _ => negb (c_follow c) | _ => false end); [discriminate|].
+    destruct (sys_stat fs _) as [q' n|q'|]; try discriminate.
+    destruct (match n with NDir => f_walk c | _ => false end); [discriminate|].
+    destruct (rev _) as [|fname rest]; [discriminate|].
+    destruct (c_name c) as [nm'|].
+    + destruct (name_ok nm') eqn:E; [inversion H; subst; exact E|discriminate].
+    + destruct (f_name_decode c); [discriminate|].
+      destruct (name_ok fname) eqn:E; [inversion H; subst; exact E|discriminate].
+  - destruct (c_name c) as [nm'|]; [|discriminate].
+    destruct (name_ok nm') eqn:E; [|discriminate].
+    destruct (c_output c) as [[|t]|]; inversion H; subst; exact E.
+Qed.
+
+(** a successful run went through from_create, so its name passed the check *)
+Theorem success_name_ok : forall c fs, snd (create_fx c fs) = CSuccess ->
+  exists nm o, from_create c fs = inr (nm, o) /\ name_ok nm = true.
+Proof.
+  intros c fs H. unfold create_fx in H.
+  destruct (f_clap c); [discriminate|]. destruct (f_tier c); [discriminate|].
+  destruct (f_private c); [discriminate|].
+  unfold final_target in H.
+  destruct (from_create c fs) as [e|[nm o]] eqn:Fc; [discriminate|].
+  exists nm, o. split; [reflexivity|]. eapply accepted_name_ok; exact Fc.
+Qed.
+
+(** the stages at which a run can stop before the name has been accepted (all of them before
+    anything is hashed or opened for writing) *)
+Definition before_hashing (e : stage) : bool :=
+  match e with
+  | EClap | ETier | EPrivate | EGlob | EInput | ESymlinkRoot | EWalk | ENameExtract | ENameInvalid => true
+  | _ => false
+  end.
+
+Lemma bad_name_from_create : forall c fs nm, c_name c = Some nm -> name_ok nm = false ->
+  exists e, from_create c fs = inl e /\ before_hashing e = true.
+Proof.
+  intros c fs nm Hn Hb. unfold from_create. rewrite Hn, Hb. cbn [negb].
+  destruct (c_input c) as [itext|]; [|eexists; split; reflexivity].
+  destruct (f_glob c); [eexists; split; reflexivity|].
+  destruct (sys_lstat fs _) as [q ln|q|]; try (eexists; split; reflexivity).
+  destruct (match ln with NLink _ => negb (c_follow c) | _ => false end); [eexists; split; reflexivity|].
+  destruct (sys_stat fs _) as [q' n|q'|]; try (eexists; split; reflexivity).
+  destruct (match n with NDir => f_walk c | _ => false end); [eexists; split; reflexivity|].
+  destruct (rev _) as [|fname rest]; eexists; split; reflexivity.
+Qed.
+
+(** a `--name` that is not one normal path component (empty, `.`, `..`, or with a separator):
+    the command fails, before hashing, and the filesystem is exactly as it was *)
+Theorem bad_name_rejected : forall c fs nm, c_name c = Some nm -> name_ok nm = false ->
+  fst (create_fx c fs) = fs /\
+  exists e, snd (create_fx c fs) = CFail e /\ before_hashing e = true.
+Proof.
+  intros c fs nm Hn Hb. unfold create_fx.
+  destruct (f_clap c); [split; [reflexivity|eexists; split; reflexivity]|].
+  destruct (f_tier c); [split; [reflexivity|eexists; split; reflexivity]|].
+  destruct (f_private c); [split; [reflexivity|eexists; split; reflexivity]|].
+  destruct (bad_name_from_create c fs nm Hn Hb) as (e & Fc & He).
+  unfold final_target. rewrite Fc. split; [reflexivity|]. exists e. split; [reflexivity|exact He].
 Qed.
 
 (** without --output the target is `<name>.torrent` in the directory that holds the input *)
 Theorem rule_default : forall c fs nm o itext,
-  from_create c fs = inr (nm, Some o) -> c_output c = None -> c_input c = Some itext -> plain nm = true ->
+  from_create c fs = inr (nm, Some o) -> c_output c = None -> c_input c = Some itext ->
+  name_ok nm = true /\
   env_resolve (c_cwd c) (parse_path itext) <> [] /\
   env_resolve (c_cwd c) o = removelast (env_resolve (c_cwd c) (parse_path itext)) ++ [name_torrent nm].
 Proof.
-  intros c fs nm o itext H Ho Hi Hp. unfold from_create in H. rewrite Ho, Hi in H.
+  intros c fs nm o itext H Ho Hi.
+  pose proof (accepted_name_ok _ _ _ _ H) as Hok. split; [exact Hok|].
+  pose proof (name_ok_no_sep _ Hok) as Hp.
+  unfold from_create in H. rewrite Ho, Hi in H.
   destruct (f_glob c); [discriminate|].
   destruct (sys_lstat fs _) as [q ln|q|]; try discriminate.
   destruct (match ln with NLink _ => negb (c_follow c) | _ => false end); [discriminate|].
@@ -423,8 +511,10 @@ Proof.
   destruct (match n with NDir => f_walk c | _ => false end); [discriminate|].
   destruct (rev (env_resolve (c_cwd c) (parse_path itext))) as [|fname rest] eqn:Er; [discriminate|].
   assert (Ho' : o = torrent_path (parse_path itext) nm).
-  { destruct (c_name c) as [nm'|]; [inversion H; reflexivity|].
-    destruct (f_name_decode c); [discriminate|inversion H; reflexivity]. }
+  { destruct (c_name c) as [nm'|].
+    - destruct (negb (name_ok nm')); [discriminate|inversion H; reflexivity].
+    - destruct (f_name_decode c); [discriminate|].
+      destruct (negb (name_ok fname)); [discriminate|inversion H; reflexivity]. }
   clear H. subst o.
   split; [intros E; rewrite E in Er; discriminate|].
   set (ip := parse_path itext) in *.
@@ -459,13 +549,44 @@ Qed.
 
 (** a target that is a directory receives `<name>.torrent`; any other target is used as is *)
 Theorem rule_directory : forall c fs nm o,
-  from_create c fs = inr (nm, Some o) -> plain nm = true ->
+  from_create c fs = inr (nm, Some o) ->
+  name_ok nm = true /\
   out_path c fs = Some (if path_is_dir fs (env_resolve (c_cwd c) o)
                         then env_resolve (c_cwd c) o ++ [name_torrent nm]
                         else env_resolve (c_cwd c) o).
 Proof.
-  intros c fs nm o H Hp. unfold out_path, final_target. rewrite H.
-  unfold push_str. rewrite (parse_plain nm Hp). reflexivity.
+  intros c fs nm o H.
+  pose proof (accepted_name_ok _ _ _ _ H) as Hok. split; [exact Hok|].
+  unfold out_path, final_target. rewrite H.
+  unfold push_str. rewrite (parse_plain nm (name_ok_no_sep _ Hok)). reflexivity.
+Qed.
+
+(** so on success the new file, if any, is directly inside the target directory / next to the
+    input: its path is the resolved target plus one component *)
+Theorem success_at_documented_path : forall c fs,
+  snd (create_fx c fs) = CSuccess ->
+  exists nm o, from_create c fs = inr (nm, o) /\ name_ok nm = true /\
+    match o with
+    | None => out_path c fs = None
+    | Some t => out_path c fs = Some (if path_is_dir fs (env_resolve (c_cwd c) t)
+                                      then env_resolve (c_cwd c) t ++ [name_torrent nm]
+                                      else env_resolve (c_cwd c) t)
+    end.
+Proof.
+  intros c fs H. destruct (success_name_ok c fs H) as (nm & o & Fc & Hok).
+  exists nm, o. split; [exact Fc|]. split; [exact Hok|].
+  destruct o as [t|].
+  - exact (proj2 (rule_directory _ _ _ _ Fc)).
+  - unfold out_path, final_target. rewrite Fc. reflexivity.
+Qed.
+
+(** the name is an opaque component: `.torrent` is appended to the whole name (a dot inside the
+    name - `a.tar` - is not an extension to be replaced), so two different names never share a file *)
+Theorem distinct_names_distinct_files : forall (d : path) a b,
+  d ++ [name_torrent a] = d ++ [name_torrent b] -> a = b.
+Proof.
+  intros d a b H. apply app_inv_head in H. inversion H as [H0].
+  unfold name_torrent in H0. apply app_inv_tail in H0. exact H0.
 Qed.
 
 (** the default target never lies under the input content unless it *is* the input *)
@@ -521,34 +642,40 @@ Example ex_dry_run :
   create_fx (mk None None true true) ex_fs = (ex_fs, CSuccess).
 Proof. vm_compute. reflexivity. Qed.
 
-(** OPEN FINDING (class name-with-separator): `--name` is pushed onto the target as a path.
-    With `--output d --name /x` the metainfo is written to `/x.torrent`, outside the target
-    directory; with `--name ../x` and no --output it is not written next to the input. *)
+(** REPAIRED FINDING (was: name-with-separator). `--name` used to be pushed onto the target as a
+    path: with `--output d --name /x` the metainfo went to `/x.torrent`, outside the target
+    directory; with `--name ../x` and no --output it was not written next to the input. Both
+    runs are now refused by the name check, as is every other name that is not one component. *)
 Definition nm_abs : list N := [47; 120].            (* "/x" *)
 Definition nm_up : list N := [46; 46; 47; 120].     (* "../x" *)
-Lemma name_separator_escapes_directory :
-  exists c fs nm o q,
-    from_create c fs = inr (nm, Some o) /\ plain nm = false /\
-    path_is_dir fs (env_resolve (c_cwd c) o) = true /\
-    snd (create_fx c fs) = CSuccess /\ c_dry_run c = false /\
-    fst (create_fx c fs) = update fs q (NFile (c_torrent c)) /\
-    ~ is_under (env_resolve (c_cwd c) o) q.
-Proof.
-  exists (mk (Some (OPath b_d)) (Some nm_abs) false false), ex_fs, nm_abs,
-         (parse_path b_d), [name_torrent [120]].
-  repeat split; try (vm_compute; reflexivity).
-  intros [s H]. vm_compute in H. discriminate.
-Qed.
+Example ex_bad_name_abs :
+  name_ok nm_abs = false /\
+  create_fx (mk (Some (OPath b_d)) (Some nm_abs) false false) ex_fs = (ex_fs, CFail ENameInvalid).
+Proof. vm_compute. split; reflexivity. Qed.
+Example ex_bad_name_up :
+  name_ok nm_up = false /\
+  create_fx (mk None (Some nm_up) false false) ex_fs = (ex_fs, CFail ENameInvalid).
+Proof. vm_compute. split; reflexivity. Qed.
+(** every kind of bad name: empty, `.`, `..`, `a/b`, `/x`, `../x`, `x/` *)
+Example ex_bad_name_kinds :
+  forallb (fun nm => negb (name_ok nm))
+          [ []; [46]; [46; 46]; [97; 47; 98]; nm_abs; nm_up; [120; 47] ] = true /\
+  forallb name_ok [ [120]; [46; 46; 46]; [46; 120]; [120; 46]; [92] ] = true.
+Proof. vm_compute. split; reflexivity. Qed.
+(** dotted names: `a.tar` into the directory d gives d/a.tar.torrent, and `a.zip` after it a second file *)
+Definition nm_tar : list N := [97; 46; 116; 97; 114].      (* "a.tar" *)
+Definition nm_zip : list N := [97; 46; 122; 105; 112].     (* "a.zip" *)
+Example ex_dotted_names :
+  name_ok nm_tar = true /\
+  create_fx (mk (Some (OPath b_d)) (Some nm_tar) false false) ex_fs
+  = (update ex_fs [b_w; b_d; nm_tar ++ dot_torrent] (NFile [100; 101]), CSuccess) /\
+  create_fx (mk (Some (OPath b_d)) (Some nm_zip) false false)
+            (update ex_fs [b_w; b_d; nm_tar ++ dot_torrent] (NFile [100; 101]))
+  = (update (update ex_fs [b_w; b_d; nm_tar ++ dot_torrent] (NFile [100; 101]))
+            [b_w; b_d; nm_zip ++ dot_torrent] (NFile [100; 101]), CSuccess).
+Proof. vm_compute. repeat split; reflexivity. Qed.
 
-Lemma name_separator_escapes_default :
-  exists c fs nm o itext q,
-    from_create c fs = inr (nm, Some o) /\ c_output c = None /\ c_input c = Some itext /\ plain nm = false /\
-    snd (create_fx c fs) = CSuccess /\ c_dry_run c = false /\
-    fst (create_fx c fs) = update fs q (NFile (c_torrent c)) /\
-    removelast q <> removelast (env_resolve (c_cwd c) (parse_path itext)).
-Proof.
-  exists (mk None (Some nm_up) false false), ex_fs, nm_up,
-         (torrent_path (parse_path b_in) nm_up), b_in, [name_torrent [120]].
-  repeat split; try (vm_compute; reflexivity).
-  vm_compute. discriminate.
-Qed.
+Example ex_plain_name_success :
+  create_fx (mk (Some (OPath b_d)) (Some [120]) false false) ex_fs
+  = (update ex_fs [b_w; b_d; name_torrent [120]] (NFile [100; 101]), CSuccess).
+Proof. vm_compute. reflexivity. Qed.
